@@ -28,6 +28,10 @@ type Options struct {
 	// approximate number of instructions per function (default 40).
 	MaxFuncs int
 	MaxBody  int
+	// MemoryInit additionally generates `memory.init k` (length 0, so it never
+	// traps on the dropped active segment).  Off by default: the current Wa
+	// assembler rejects every module using it (C04 known finding).
+	MemoryInit bool
 	// InlineFuncExportsOnly prints every function export inline (no separate
 	// (export "x" (func …)) fields); anonymous functions are then not exported.
 	InlineFuncExportsOnly bool
@@ -62,6 +66,7 @@ const (
 	FeatStartNonFirst     = "start_non_first"
 	FeatDataName          = "data_name"
 	FeatBlockComment      = "block_comment"
+	FeatMemoryInit        = "memory.init"
 	FeatMemoryGrow        = "memory.grow"
 	FeatBulkMemory        = "memory.copy/fill"
 	FeatCallIndirect      = "call_indirect"
@@ -302,7 +307,7 @@ func (g *gen) module() {
 	// ---- memory / table presence
 	hasMem := g.chance("hasmem", 75)
 	importMem := hasMem && !g.opt.Exec && g.on(FeatImportMemory) && g.chance("importmem", 10)
-	hasTable := g.chance("hastable", 60)
+	hasTable := g.chance("hastable", 70)
 
 	// ---- imports
 	if g.on(FeatImportFunc) {
@@ -495,6 +500,9 @@ func (g *gen) module() {
 		}
 		// last slot stays null forever (designated indirectNull site); others may be filled
 		nseg := g.intn("nelem", 0, 2)
+		if nseg == 0 && g.chance("elemforce", 70) {
+			nseg = 1
+		}
 		for s := 0; s < nseg; s++ {
 			off := g.intn("elemoff", 0, size-2)
 			n := g.intn("elemlen", 1, size-1-off)
@@ -527,7 +535,7 @@ func (g *gen) module() {
 						hasT = true
 					}
 				}
-				if !hasT && len(m.Types) < 5 && g.chance("elemtype", 70) {
+				if !hasT && len(m.Types) < 5 && g.chance("elemtype", 85) {
 					td := TypeDef{Type: cloneFT(m.FuncTypeOf(fi))}
 					if g.chance("typenamed", 70) {
 						td.Name = g.ident("typename", "t")
